@@ -3,6 +3,7 @@ import TxdbusModel.Msg.WireCodec
 import TxdbusModel.Proofs.Wire.TopLevel
 import TxdbusModel.Proofs.Wire.Normal
 import TxdbusModel.Proofs.Wire.ConfTop
+import TxdbusModel.Proofs.Msg.BodyShift
 /-
 C03 composed with C01: the message model instantiated with the code model of txdbus's own wire codec
 (Wire/Code.lean) as the body codec, and the lemmas behind `C01_roundtrip` / `C02_decode` (Proofs/Wire/TopLevel.lean,
@@ -232,7 +233,8 @@ theorem parse_marshal_wire_core (T : Tables) (hT : T.OK) (na : Char → Bool) (m
     ∃ m' : Msg PyVal, parseMessage T (wireCodec fuel) m.raw fdsArg = .ok m' ∧
       m'.cls = m.cls ∧ m'.serial = m.serial ∧ m'.expectReply = m.expectReply ∧ m'.autoStart = m.autoStart ∧
       (∀ x, m'.attrs x = plain (m.attrs x)) ∧
-      m'.body = some (.list values) ∧ m'.rawBody = bs ∧ m.rawBody = bs ∧ m.body = some pv := by
+      m'.body = some (.list values) ∧ m'.rawBody = bs ∧ m.rawBody = bs ∧ m.body = some pv ∧
+      m'.rawHeader = m.rawHeader ∧ m'.rawPadding = m.rawPadding ∧ m'.otherFlags = 0 ∧ m.otherFlags = 0 := by
   obtain ⟨hcm, hcu⟩ := wireCodec_hC fuel sg pv c.oob fdsOut fdsArg bs values hm hu
   have hnonul : Main.SigNoNul c := by
     intro sg' hsg'
@@ -253,7 +255,7 @@ theorem parse_marshal_wire_core (T : Tables) (hT : T.OK) (na : Char → Bool) (m
     simp only [PyVal.str.injEq, true_and] at hsg'
     subst hsg'
     exact ⟨bs, fdsOut, by rw [hmbody]; exact hcm, hcu⟩
-  obtain ⟨m', p1, p2, p3, p4, p5, p6, p7, p8, p9, p10, _⟩ :=
+  obtain ⟨m', p1, p2, p3, p4, p5, p6, p7, p8, p9, p10, p11, p12⟩ :=
     Main.parse_marshal T hT (wireCodec fuel) na maxLen st st' c m hs hnonul h fdsArg (.list values) hC
   have htr : truthy (m.attrs .signature) = true := by
     rw [hsigattr]
@@ -270,7 +272,7 @@ theorem parse_marshal_wire_core (T : Tables) (hT : T.OK) (na : Char → Bool) (m
       rw [hpb, hbody, hcm] at hs3
       simp only [Except.ok.injEq, Prod.mk.injEq] at hs3
       exact hs3.1.symm
-  exact ⟨m', p1, p2, p3, p4, p5, p6, p7, by rw [p10, hraw], hraw, hmbody⟩
+  exact ⟨m', p1, p2, p3, p4, p5, p6, p7, by rw [p10, hraw], hraw, hmbody, p8, p9, p11, p12⟩
 
 /-- **C03 ∘ C01.**  Any of the four constructors, called without a descriptor list (`oobFDs=None`) or with an empty one
 (`oobFDs=[]`, method calls), with a non-empty signature `renderAll ts` and a body in C01's domain: `ts` without empty
@@ -291,7 +293,8 @@ theorem parse_marshal_c01_gen (T : Tables) (hT : T.OK) (na : Char → Bool) (max
     ∃ m' : Msg PyVal, parseMessage T (wireCodec fuel) m.raw (some fdl) = .ok m' ∧
       m'.cls = m.cls ∧ m'.serial = m.serial ∧ m'.expectReply = m.expectReply ∧ m'.autoStart = m.autoStart ∧
       (∀ x, m'.attrs x = plain (m.attrs x)) ∧
-      m'.body = some (.list (Code.plainList items)) ∧ m'.rawBody = bs ∧ m.rawBody = bs ∧ m.body = some pv := by
+      m'.body = some (.list (Code.plainList items)) ∧ m'.rawBody = bs ∧ m.rawBody = bs ∧ m.body = some pv ∧
+      m'.rawHeader = m.rawHeader ∧ m'.rawPadding = m.rawPadding ∧ m'.otherFlags = 0 ∧ m.otherFlags = 0 := by
   rcases hoob with ho | ho
   · rw [ho] at hrep
     simp only [Option.isSome_none, Bool.false_eq_true, if_false] at hrep
@@ -328,7 +331,8 @@ theorem parse_marshal_c01_checked_gen (T : Tables) (hT : T.OK) (na : Char → Bo
     ∃ m' : Msg PyVal, parseMessage T (wireCodec fuel) m.raw (some fdl) = .ok m' ∧
       m'.cls = m.cls ∧ m'.serial = m.serial ∧ m'.expectReply = m.expectReply ∧ m'.autoStart = m.autoStart ∧
       (∀ x, m'.attrs x = plain (m.attrs x)) ∧
-      m'.body = some (.list (Code.plainBList items)) ∧ m'.rawBody = bs ∧ m.rawBody = bs ∧ m.body = some pv := by
+      m'.body = some (.list (Code.plainBList items)) ∧ m'.rawBody = bs ∧ m.rawBody = bs ∧ m.body = some pv ∧
+      m'.rawHeader = m.rawHeader ∧ m'.rawPadding = m.rawPadding ∧ m'.otherFlags = 0 ∧ m.otherFlags = 0 := by
   obtain ⟨items, hitems, hrep⟩ := Code.toSpecTop_sound n ts pv vs fdl hchk
   have hk := Code.keysOKB_fields pv items hitems (Code.keysOKCheck_sound pv hkeys)
   have hm : Code.marshal fuel (renderAll ts) pv 0 true (some []) = .ok (bs.length, bs, some fdl) := by
@@ -340,6 +344,144 @@ theorem parse_marshal_c01_checked_gen (T : Tables) (hT : T.OK) (na : Char → Bo
   simp only [List.nil_append, List.append_nil] at hu
   exact ⟨items, hitems, parse_marshal_wire_core T hT na maxLen st st' c m hs (renderAll ts) pv bs (some fdl) (some fdl)
     (Code.plainBList items) fuel hsig hne (render_noNul ts) hbody (by rw [hoob]; exact hm) hu h⟩
+
+/-- What `toSpecTopNoFd` answers is a witness of conformance without descriptors, whatever list is received later. -/
+theorem toSpecTopNoFd_sound (n : Nat) (ts : List Ty) (pv : PyVal) (vs : List Val)
+    (h : toSpecTopNoFd n ts pv = some vs) :
+    ∃ items, Code.structFields pv = some items ∧ ∀ lall, Code.ConfFields lall vs false ts items 0 0 := by
+  unfold toSpecTopNoFd at h
+  split at h <;> try (simp at h; done)
+  rename_i items hitems
+  rw [Code.toSpecStructFields_eq] at hitems
+  cases hf : Code.toSpecFields n false ts items [] with
+  | none => rw [hf] at h; simp at h
+  | some r =>
+    obtain ⟨vs', fds'⟩ := r
+    rw [hf] at h
+    simp only [Option.map_some, Option.some.injEq] at h
+    subst h
+    have hnil := Code.toSpecFields_nofd n ts items [] vs' fds' hf
+    subst hnil
+    have hs := Code.toSpecFields_sound n false ts items [] vs' [] hf
+    exact ⟨items, hitems, fun lall => by simpa using hs.2 lall (List.nil_prefix)⟩
+
+/-- `Code.marshal_eq_spec_conf` for `oobFDs=None` (same proof with `fd = false`). -/
+theorem marshal_eq_spec_conf_none (le : Bool) (ts : List Ty) (pv : PyVal) (items : List PyVal) (vs : List Val)
+    (lall : List PyVal) (off : Nat) (bs : Bytes) (fuel : Nat)
+    (hitems : Code.structFields pv = some items) (hrep : Code.ConfFields lall vs false ts items 0 0)
+    (henc : Spec.encodeAll Code.genAlign (Txdbus.endianOf le) ts vs off = some bs) (hfuel : depthAll vs ≤ fuel) :
+    Code.marshal fuel (renderAll ts) pv off le none = .ok (bs.length, bs, none) := by
+  unfold Code.marshal Code.marshalTop
+  unfold Spec.encodeAll at henc
+  have h := Code.marshalSeq_conf Code.genAlign Code.padOK_gen Code.genAlign_pos lall le vs false ts items 0 0 off bs fuel
+    hrep henc hfuel
+  simp only [Code.fdsArg, Bool.false_eq_true, if_false] at h
+  simp only [Code.topItems_of_fields pv items hitems, lazyPieces_renderAll, h]
+  simp
+
+/-- `parse_marshal_c01_checked_gen` for `oobFDs=None` - any of the four constructors: the executable premise is
+`toSpecTopNoFd` (`Code.toSpecTop` read with `fd = false`); `fdl` is whatever descriptor list `parseMessage` is given. -/
+theorem parse_marshal_c01_checked_none_gen (T : Tables) (hT : T.OK) (na : Char → Bool) (maxLen : Nat) (st st' : St)
+    (c : Call PyVal) (m : Msg PyVal) (hs : 1 ≤ st.nextSerial)
+    (n : Nat) (ts : List Ty) (pv : PyVal) (vs : List Val) (fdl : List PyVal) (bs : Bytes) (fuel : Nat)
+    (hsig : c.signature = some (renderAll ts)) (hne : renderAll ts ≠ []) (hbody : c.body = some pv)
+    (hoob : c.oob = none)
+    (hts : allWF ts = true) (hchk : toSpecTopNoFd n ts pv = some vs) (hkeys : Code.keysOKCheck pv = true)
+    (henc : Spec.encodeAll Code.genAlign (Txdbus.endianOf true) ts vs 0 = some bs) (hfuel : depthAll vs ≤ fuel)
+    (h : construct T (wireCodec fuel) na maxLen st c = (st', .ok m)) :
+    ∃ items, Code.structFields pv = some items ∧
+    ∃ m' : Msg PyVal, parseMessage T (wireCodec fuel) m.raw (some fdl) = .ok m' ∧
+      m'.cls = m.cls ∧ m'.serial = m.serial ∧ m'.expectReply = m.expectReply ∧ m'.autoStart = m.autoStart ∧
+      (∀ x, m'.attrs x = plain (m.attrs x)) ∧
+      m'.body = some (.list (Code.plainBList items)) ∧ m'.rawBody = bs ∧ m.rawBody = bs ∧ m.body = some pv ∧
+      m'.rawHeader = m.rawHeader ∧ m'.rawPadding = m.rawPadding ∧ m'.otherFlags = 0 ∧ m.otherFlags = 0 := by
+  obtain ⟨items, hitems, hrep⟩ := toSpecTopNoFd_sound n ts pv vs hchk
+  have hk := Code.keysOKB_fields pv items hitems (Code.keysOKCheck_sound pv hkeys)
+  have hm := marshal_eq_spec_conf_none true ts pv items vs fdl 0 bs fuel hitems (hrep fdl) henc hfuel
+  have hu := Code.unmarshal_eq_spec Code.genAlign Code.padOK_gen Code.genAlign_pos true (some fdl) ts vs 0 bs [] []
+    (Code.plainBList items) fuel hts henc rfl (Code.fromSpecFields_of_conf fdl vs false ts items 0 0 (hrep fdl) hk) hfuel
+  simp only [List.nil_append, List.append_nil] at hu
+  exact ⟨items, hitems, parse_marshal_wire_core T hT na maxLen st st' c m hs (renderAll ts) pv bs none (some fdl)
+    (Code.plainBList items) fuel hsig hne (render_noNul ts) hbody (by rw [hoob]; exact hm) hu h⟩
+
+/-- **The body in its place** (review 2, 1.3).  The theorems above say `m.rawBody = bs` with `bs` the specification
+encoding of the body AT OFFSET 0 (what `marshal.marshal(signature, body)` computes).  In the message the body starts
+behind `rawHeader ++ rawPadding`, at a multiple of 8, and the specification counts alignment from the start of the
+message: `bs` is also the encoding at that offset (`Spec.encodeAll_shift`: every alignment of `dbus_types` divides 8,
+`Code.genAlign_dvd8`), and `rawMessage` is `rawHeader ++ rawPadding ++ bs`. -/
+theorem body_in_place_gen {β : Type} (T : Tables) (hT : T.OK) (C : BodyCodec β) (na : Char → Bool) (maxLen : Nat)
+    (hmax : maxLen ≤ Spec.maxMessage) (st st' : St) (c : Call β) (m : Msg β) (hs : 1 ≤ st.nextSerial)
+    (hsig : Main.SigNoNul c) (h : construct T C na maxLen st c = (st', .ok m))
+    (e : Endian) (ts : List Ty) (vs : List Val) (bs : Bytes)
+    (henc : Spec.encodeAll Code.genAlign e ts vs 0 = some bs) (hraw : m.rawBody = bs) :
+    m.raw = m.rawHeader ++ m.rawPadding ++ bs ∧ (m.rawHeader ++ m.rawPadding).length % 8 = 0 ∧
+      Spec.encodeAll Code.genAlign e ts vs (m.rawHeader ++ m.rawPadding).length = some bs := by
+  obtain ⟨sm, _, q2, q3, q4, _, q6, _⟩ := Main.marshal_wellformed T hT C na maxLen hmax st st' c m hs hsig h
+  refine ⟨by rw [q2, q3, q4, hraw], q6, ?_⟩
+  rw [Spec.encodeAll_shift Code.genAlign e Code.genAlign_dvd8 ts vs _ q6]
+  exact henc
+
+/-- **"... or the spec-conformant bytes another implementation would produce for the same message, in either byte
+order" - with the body, and no hypothesis about the codec** (review 2, 1.2).  `m` constructed as in `parse_marshal_c01`
+(`wireCodec`, signature `renderAll ts`, body items `items` denoting the spec values `vs`).  Let `w` be any valid message
+of the same type carrying `m`'s header fields in any order plus fields of unknown codes, in EITHER byte order, whose body
+is the specification encoding of the same values `vs` in `w`'s byte order.  Then `parseMessage (Spec.encodeMsg w) fdl`
+returns `m`'s class, every header attribute and the same body values `Code.plainList items`.
+Not derived here: that the values encode in the other byte order whenever they encode little-endian (true - the limits
+do not depend on the byte order - but no lemma `encodeAll little = some _ → encodeAll big = some _` exists yet in
+Proofs/Wire); `henc` asks for `w.body` to BE that encoding, which is what "the bytes another implementation would
+produce" means. -/
+theorem parse_foreign_of_constructed_c01_gen (T : Tables) (hT : T.OK) (na : Char → Bool) (maxLen : Nat) (st st' : St)
+    (c : Call PyVal) (m : Msg PyVal)
+    (ts : List Ty) (items : List PyVal) (vs : List Val) (fdl : List PyVal) (fd : Bool) (k k' : Nat) (fuel : Nat)
+    (hsig : c.signature = some (renderAll ts)) (hne : renderAll ts ≠ [])
+    (hts : allWF ts = true) (hrep : Code.RepFields fdl vs fd ts items k k') (hkeys : Code.KeysOKList items)
+    (hfuel : depthAll vs ≤ fuel)
+    (h : construct T (wireCodec fuel) na maxLen st c = (st', .ok m)) :
+    ∃ sm : SpecMsg, m.toSpec T = some sm ∧
+      ∀ (w : SpecMsg) (extra : List Field), w.valid = true → w.mtype = sm.mtype →
+        w.fields.Perm (sm.fields ++ extra) → (∀ f ∈ extra, lookupAttr T f.1 = none) →
+        Spec.encodeAll Code.genAlign w.endian ts vs 0 = some w.body →
+        ∃ m' : Msg PyVal, parseMessage T (wireCodec fuel) (Spec.encodeMsg w) (some fdl) = .ok m' ∧
+          m'.cls = m.cls ∧ m'.serial = w.serial ∧
+          m'.expectReply = decide (w.flags % 2 = 0) ∧ m'.autoStart = decide (w.flags / 2 % 2 = 0) ∧
+          (∀ a, m'.attrs a = plain (m.attrs a)) ∧
+          m'.body = some (.list (Code.plainList items)) ∧ m'.rawBody = w.body ∧
+          m'.otherFlags = w.flags / 4 * 4 := by
+  obtain ⟨sm, hb⟩ := construct_ok T hT (wireCodec fuel) na maxLen st st' c m h
+  obtain ⟨sm', hsp, hall⟩ := Main.parse_foreign_of_constructed T hT (wireCodec fuel) na maxLen st st' c m h
+  have hsm : sm' = sm := by
+    have := hb.spec
+    rw [hsp] at this
+    exact Option.some.inj this
+  subst hsm
+  refine ⟨sm', hsp, ?_⟩
+  intro w extra hw hmt hperm hextra henc
+  have hsigattr : m.attrs .signature = .str .plain (renderAll ts) := by
+    rw [hb.attrs .signature (by decide), Main.pre_signature, hsig]; rfl
+  have hend : Txdbus.endianOf (decide (w.endian = .little)) = w.endian := by
+    cases w.endian <;> rfl
+  have hu := Code.unmarshal_eq_spec Code.genAlign Code.padOK_gen Code.genAlign_pos (decide (w.endian = .little)) (some fdl)
+    ts vs 0 w.body [] [] (Code.plainList items) fuel hts (by rw [hend]; exact henc) rfl
+    (Code.fromSpecFields_of_rep fdl vs fd ts items k k' hrep hkeys) hfuel
+  simp only [List.nil_append, List.append_nil] at hu
+  have hC : ∀ sg, Main.fieldFor T sm'.fields .signature = some (.text .g sg) → sg ≠ [] →
+      (wireCodec fuel).unmarshal sg w.body (decide (w.endian = .little)) (some fdl) = .ok (.list (Code.plainList items)) := by
+    intro sg hsg _
+    have hv := Main.built_view hT hb (some fdl) .signature
+    rw [hsg, hsigattr] at hv
+    simp only [pyOf, plain, PyVal.str.injEq, true_and] at hv
+    subst hv
+    simp only [wireCodec, hu]
+  obtain ⟨m', p1, p2, p3, p4, p5, p6, p7, p8, p9⟩ :=
+    hall w extra hw hmt hperm hextra (some fdl) (fun _ _ _ hc => by cases hc) (.list (Code.plainList items)) hC
+  have htr : truthy (m.attrs .signature) = true := by
+    rw [hsigattr]
+    cases hr : renderAll ts with
+    | nil => exact absurd hr hne
+    | cons ch cs => simp [truthy]
+  rw [htr, if_pos rfl] at p7
+  exact ⟨m', p1, p2, p3, p4, p5, p6, p7, p8, p9⟩
 
 /-- Without a body (no signature, or the empty one) nothing is asked of the codec: `parse_marshal`'s premise is vacuous. -/
 theorem parse_marshal_no_body_gen (T : Tables) (hT : T.OK) (na : Char → Bool) (maxLen : Nat) (st st' : St)
